@@ -130,9 +130,50 @@ impl TapeRng {
     pub fn all_bytes(&self) -> Vec<u8> {
         self.draws.iter().flat_map(|d| d.bytes.iter().copied()).collect()
     }
-    /// is `needle` exactly one recorded draw?
+    /// was `needle` handed out by this RNG?  True if it is one recorded draw or a run of
+    /// consecutive bytes of the stream (so an implementation that fetches a value with several
+    /// smaller calls, or one larger call, is still recognised)
     pub fn has_draw(&self, needle: &[u8]) -> bool {
-        self.draws.iter().any(|d| d.bytes == needle)
+        self.find(needle).is_some()
+    }
+    /// offset of `needle` in the stream of bytes handed out (whole draws first)
+    pub fn find(&self, needle: &[u8]) -> Option<usize> {
+        if needle.is_empty() {
+            return None;
+        }
+        let mut off = 0;
+        for d in &self.draws {
+            if d.bytes == needle {
+                return Some(off);
+            }
+            off += d.bytes.len();
+        }
+        let all = self.all_bytes();
+        if all.len() < needle.len() {
+            return None;
+        }
+        (0..=all.len() - needle.len()).find(|i| &all[*i..*i + needle.len()] == needle)
+    }
+    /// candidate `len`-byte windows of the stream that start at a draw boundary: first the
+    /// draws of exactly that length, then runs starting at each draw boundary
+    pub fn windows(&self, len: usize) -> Vec<(usize, Vec<u8>)> {
+        let mut v = Vec::new();
+        let mut off = 0;
+        for d in &self.draws {
+            if d.bytes.len() == len {
+                v.push((off, d.bytes.clone()));
+            }
+            off += d.bytes.len();
+        }
+        let all = self.all_bytes();
+        let mut off = 0;
+        for d in &self.draws {
+            if d.bytes.len() != len && off + len <= all.len() {
+                v.push((off, all[off..off + len].to_vec()));
+            }
+            off += d.bytes.len();
+        }
+        v
     }
 
     fn raw_fill(&mut self, dest: &mut [u8]) {
